@@ -5,12 +5,12 @@ P="$1"; ID="$2"; TIER="${3:-quick}"
 cd /repo || exit 2
 if [ -n "$(git status --porcelain --untracked-files=no)" ]; then echo "repo not clean"; exit 2; fi
 if ! git apply "$P" 2>/dev/null; then
-  if ! git apply --3way "$P" >/dev/null 2>&1; then echo "PATCH-DOES-NOT-APPLY $P"; git checkout -q -- . ; git reset -q; exit 3; fi
+  if ! git apply --3way "$P" >/dev/null 2>&1; then echo "PATCH-DOES-NOT-APPLY $P"; git reset -q --hard HEAD; exit 3; fi
   git reset -q
 fi
 cd /verif && ./check "$ID" "$TIER" > /tmp/try_mutant.$$.out 2>&1; RC=$?
 grep -E '^(VIOLATION|KNOWN-FINDING|HARNESS-ERROR|  signature|C[0-9]+ (quick|thorough):)' /tmp/try_mutant.$$.out | head -12
 rm -f /tmp/try_mutant.$$.out
-git -C /repo checkout -q -- . 
+git -C /repo reset -q --hard HEAD
 echo "rc=$RC"
 exit $RC
